@@ -516,6 +516,11 @@ func (e *Env) expr(x ast.Expr) Val {
 			r := IntV(vc.substr(e.st, b.S, lo, hi), types.Typ[types.String])
 			return r
 		}
+		if b.K == KInt && b.T != nil {
+			if arr, ok := isArrayT(derefType(b.T)); ok {
+				b = SliceV(b.S, "0", numI(arr.Len()), numI(arr.Len()), types.NewSlice(arr.Elem()))
+			}
+		}
 		if b.K != KSlice {
 			panic(specErr("%s: slicing a non-slice", e.what))
 		}
@@ -654,7 +659,7 @@ func pickPatterns(body, v string) []string {
 			if k := strings.IndexAny(head, " )"); k >= 0 {
 				head = head[:k]
 			}
-			if !interpreted[head] && !strings.HasPrefix(head, "(") && containsSym(sub, v) && !seen[sub] && !strings.Contains(sub, "forall") {
+			if !interpreted[head] && !strings.HasPrefix(head, "(") && containsSym(sub, v) && !seen[sub] && !strings.Contains(sub, "forall") && !hasOtherBound(sub, v) {
 				seen[sub] = true
 				sc := len(sub)
 				if strings.Contains(sub, "(* ") || strings.Contains(sub, "(div ") || strings.Contains(sub, "(mod ") {
@@ -701,12 +706,90 @@ func pickPatterns(body, v string) []string {
 	return out
 }
 
+// pickPatterns2: applications that contain both bound variables (and no other bound variable).
+func pickPatterns2(body, a, b string) []string {
+	var out []string
+	seen := map[string]bool{}
+	interpreted := map[string]bool{"and": true, "or": true, "not": true, "=>": true, "=": true, "<": true, "<=": true, ">": true, ">=": true,
+		"+": true, "-": true, "*": true, "ite": true, "div": true, "mod": true, "forall": true, "exists": true, "!": true, "store": true}
+	var walk func(s string)
+	walk = func(s string) {
+		for i := 0; i < len(s); i++ {
+			if s[i] != '(' {
+				continue
+			}
+			d := 0
+			j := i
+			for ; j < len(s); j++ {
+				if s[j] == '(' {
+					d++
+				} else if s[j] == ')' {
+					d--
+					if d == 0 {
+						break
+					}
+				}
+			}
+			sub := s[i : j+1]
+			head := sub[1:]
+			if k := strings.IndexAny(head, " )"); k >= 0 {
+				head = head[:k]
+			}
+			if !interpreted[head] && !strings.HasPrefix(head, "(") && containsSym(sub, a) && containsSym(sub, b) && !seen[sub] && !strings.Contains(sub, "forall") {
+				m := map[string]bool{}
+				symbols(sub, m)
+				ok := true
+				for sy := range m {
+					if sy != a && sy != b && strings.Contains(sy, "!q") {
+						ok = false
+					}
+				}
+				if ok {
+					seen[sub] = true
+					out = append(out, sub)
+				}
+			}
+			if len(sub) > 2 {
+				walk(sub[1 : len(sub)-1])
+			}
+			i = j
+		}
+	}
+	walk(body)
+	// keep minimal ones, at most two
+	var mins []string
+	for _, c := range out {
+		minimal := true
+		for _, o := range out {
+			if o != c && strings.Contains(c, o) {
+				minimal = false
+			}
+		}
+		if minimal && len(mins) < 2 {
+			mins = append(mins, c)
+		}
+	}
+	return mins
+}
+
 func pickPattern(body, v string) string {
 	ps := pickPatterns(body, v)
 	if len(ps) == 0 {
 		return ""
 	}
 	return strings.Join(ps, ") :pattern (")
+}
+
+// hasOtherBound: the term mentions a quantified variable other than v (it would be free in a pattern of v's quantifier).
+func hasOtherBound(term, v string) bool {
+	m := map[string]bool{}
+	symbols(term, m)
+	for s := range m {
+		if s != v && strings.Contains(s, "!q") {
+			return true
+		}
+	}
+	return false
 }
 
 func containsSym(term, sym string) bool {
@@ -850,6 +933,34 @@ func (e *Env) callExpr(n *ast.CallExpr) Val {
 		return BoolV(Eq(arg(0).S, arg(1).S))
 	case "forall", "exists":
 		return e.quant(fname, n)
+	case "forall2":
+		// forall2(a, b, body): one quantifier over two integers (better triggers than nesting)
+		if len(n.Args) != 3 {
+			panic(specErr("%s: forall2(a, b, body)", e.what))
+		}
+		ia, ok1 := n.Args[0].(*ast.Ident)
+		ib, ok2 := n.Args[1].(*ast.Ident)
+		if !ok1 || !ok2 {
+			panic(specErr("%s: forall2 needs two identifiers", e.what))
+		}
+		vc.n++
+		va := fmt.Sprintf("%s!q%d", ia.Name, vc.n)
+		vc.n++
+		vb := fmt.Sprintf("%s!q%d", ib.Name, vc.n)
+		inner := e.bind(ia.Name, IntV(va, nil)).bind(ib.Name, IntV(vb, nil))
+		body := inner.expr(n.Args[2])
+		if body.K != KBool {
+			panic(specErr("%s: quantifier body is not boolean", e.what))
+		}
+		// trigger: smallest application containing both variables
+		pat := ""
+		for _, c := range pickPatterns2(body.S, va, vb) {
+			pat += " :pattern (" + c + ")"
+		}
+		if pat != "" {
+			return BoolV(fmt.Sprintf("(forall ((%s Int) (%s Int)) (! %s%s))", va, vb, body.S, pat))
+		}
+		return BoolV(fmt.Sprintf("(forall ((%s Int) (%s Int)) %s)", va, vb, body.S))
 	case "ite":
 		c, a, b := arg(0), arg(1), arg(2)
 		if a.K == KBool {
@@ -936,6 +1047,57 @@ func (e *Env) callExpr(n *ast.CallExpr) Val {
 		cur := Sel(vc.heapGet(e.st, "G_pos", "(Array Int Int)"), r.S)
 		old := Sel(vc.heapGet(e.oldOr(), "G_pos", "(Array Int Int)"), r.S)
 		return IntV(Sub(cur, old), nil)
+	case "contents":
+		v := arg(0)
+		et := e.elemType(v)
+		names, sorts := elemHeapNames(et)
+		if len(names) != 1 {
+			panic(specErr("%s: contents() of a slice with composite elements", e.what))
+		}
+		reg := v.Reg
+		if v.K != KSlice {
+			reg = v.S
+		}
+		return Val{K: KInt, S: Sel(vc.heapGet(e.st, names[0], arr2Sort(sorts[0])), reg)}
+	case "sid":
+		// identity of a 16-byte checksum held in a byte slice: the 128-bit number its bytes spell (injective, no axioms needed)
+		v := arg(0)
+		if v.K == KInt && v.T != nil {
+			if arr, ok := isArrayT(v.T); ok {
+				v = SliceV(v.S, "0", numI(arr.Len()), numI(arr.Len()), types.NewSlice(arr.Elem()))
+			}
+		}
+		if v.K != KSlice {
+			panic(specErr("%s: sid() needs a byte slice", e.what))
+		}
+		h := vc.heapGet(e.st, byteHeap, arr2Sort("Int"))
+		t := "0"
+		for k := 15; k >= 0; k-- {
+			t = Add(Mul(t, "256"), Sel(Sel(h, v.Reg), Add(v.Off, numI(int64(k)))))
+		}
+		if !strings.Contains(t, "!q") {
+			t = vc.forceName("sid", "Int", t)
+		}
+		return IntV(t, nil)
+	case "hashid":
+		// abstract identity of the checksum of a byte string (a function of its bytes and length)
+		v := arg(0)
+		vc.declareFun("hashid", []string{"(Array Int Int)", "Int", "Int"}, "Int")
+		vc.axiom("hashid_pos", "(forall ((a (Array Int Int)) (o Int) (n Int)) (! (> (hashid a o n) 0) :pattern ((hashid a o n))))")
+		return IntV(app("hashid", Sel(vc.heapGet(e.st, byteHeap, arr2Sort("Int")), v.Reg), v.Off, v.Len), nil)
+	case "member2":
+		return BoolV(Sel(Sel(arg(0).S, arg(1).S), arg(2).S))
+	case "add2":
+		s0, a, b := arg(0).S, arg(1).S, arg(2).S
+		return Val{K: KInt, S: Sto(s0, a, Sto(Sel(s0, a), b, T))}
+	case "del2":
+		s0, a, b := arg(0).S, arg(1).S, arg(2).S
+		return Val{K: KInt, S: Sto(s0, a, Sto(Sel(s0, a), b, F))}
+	case "get2":
+		return IntV(Sel(Sel(arg(0).S, arg(1).S), arg(2).S), nil)
+	case "put2":
+		s0, a, b, c := arg(0).S, arg(1).S, arg(2).S, arg(3).S
+		return Val{K: KInt, S: Sto(s0, a, Sto(Sel(s0, a), b, c))}
 	case "wlen":
 		return IntV(Sel(vc.heapGet(e.st, "G_wlen", "(Array Int Int)"), arg(0).S), nil)
 	case "wbyte":
